@@ -11,6 +11,7 @@ EXPLANATION = (
     "next_unsealed resets it (must-pass-through over CFG + call graph). R3 pairing with to_block: everything from_block reads from the "
     "block is written by to_block."
     " R2 additionally decides the part of the `tips` clause that holds today: a block sealed WITH a proposer action has tips = 0 on every path through seal and its callees (`tips/const-under-action`); the recorded finding D5 is the seal(None) case."
+    ' Imports C01.R5 (no further writer of the unrecorded field `tips`) and C20.R1/R2 (coin entries and counts are written through to the tree on every path: from_block rebuilds the coin map from the tree alone).'
 )
 NOT_DECIDED = ["extensional equality of all future behaviour (follows from R1+R2 only together with C03/C07)",
                "that the content-addressed store returns the tree with the requested root (novasmt, trusted base)"]
